@@ -51,6 +51,10 @@ def cases(tier, seed):
             if not model.startswith("kiss") and not tz:
                 continue
             yield {"kind": "strategy", "model": model, "max_cholesky_size": chol, "fast_pred_var": fpv, "sgpr_diagonal_correction": corr, "use_toeplitz": tz, "seed": rnd.randrange(10**6)}
+            if corr and tz:
+                # the same strategies under per-point (fixed) observation noise, with and without a learned additional noise
+                for lk in ("fixed", "fixed_learned"):
+                    yield {"kind": "strategy", "model": model, "max_cholesky_size": chol, "fast_pred_var": fpv, "sgpr_diagonal_correction": corr, "use_toeplitz": tz, "lik": lk, "seed": rnd.randrange(10**6)}
         for m, lk in itertools.product((2, 4), ("gaussian", "fixed", "fixed_learned")):
             yield {"kind": "sgpr_bound", "m": m, "lik": lk, "seed": rnd.randrange(10**6)}
         for mean, depth, dims in itertools.product([0.0, 1.2], [1, 2], [1, 2]):
@@ -348,14 +352,18 @@ def _rff(case, ctx, g):
         ctx.close("rff_features", rk(X).to_dense(), feat(X) @ feat(X).T, "direct", cls="rff:xx")
 
 
-def _mk_model(name, g, mean_const=None):
+def _mk_model(name, g, mean_const=None, lk="gaussian"):
     import torch
 
     import gpytorch
     from vf import util
 
     K = gpytorch.kernels
-    lik = gpytorch.likelihoods.GaussianLikelihood()
+    n = 9
+    if lk == "gaussian":
+        lik = gpytorch.likelihoods.GaussianLikelihood()
+    else:
+        lik = gpytorch.likelihoods.FixedNoiseGaussianLikelihood(0.03 + 0.2 * util.rand(g, n), learn_additional_noise=lk == "fixed_learned")
     if name == "kiss1d":
         d, kern = 1, K.ScaleKernel(_kiss([16], g))
     elif name == "kiss2d":
@@ -371,7 +379,10 @@ def _mk_model(name, g, mean_const=None):
     mean = gpytorch.means.ConstantMean()
     m = util.GP(X, y, lik, mean, kern)
     with torch.no_grad():
-        lik.noise = 0.05 + float(util.rand(g, 1)) * 0.2
+        if lk == "gaussian":
+            lik.noise = 0.05 + float(util.rand(g, 1)) * 0.2
+        elif lk == "fixed_learned":
+            lik.second_noise = 0.05 + float(util.rand(g, 1)) * 0.2
         mean.constant.fill_(mean_const if mean_const is not None else float(util.randn(g, 1)) * 0.5)
         for mod in kern.modules():
             if isinstance(mod, K.ScaleKernel):
@@ -387,7 +398,7 @@ def _strategy(case, ctx, g):
     from gpytorch import settings as S
     from vf import util
 
-    m, lik, X, y, xs = _mk_model(case["model"], g)
+    m, lik, X, y, xs = _mk_model(case["model"], g, lk=case.get("lik", "gaussian"))
     n = X.shape[0]
     sd = {"max_cholesky_size": case["max_cholesky_size"], "fast_pred_var": case["fast_pred_var"], "sgpr_diagonal_correction": case["sgpr_diagonal_correction"], "use_toeplitz": case["use_toeplitz"]}
     iterative = case["max_cholesky_size"] == 0
@@ -406,9 +417,11 @@ def _strategy(case, ctx, g):
         # documented SGPR predictive: K** is the exact base kernel, the data terms are the (diagonally corrected) Nystrom matrix
         with torch.no_grad(), S.lazily_evaluate_kernels(False):
             Kss = m.covar_module.base_kernel(xs).to_dense()
-    ref_m, ref_c, _, _ = util.dense_conditional(Kxx, Ksx, Kss, mu[:n], mu[n:], lik.noise.detach() * torch.eye(n), y)
+    # per-point observation noise: sigma^2, or the stored fixed noise [+ the learned additional noise]
+    s2 = lik.noise.detach().reshape(-1).expand(n)
+    ref_m, ref_c, _, _ = util.dense_conditional(Kxx, Ksx, Kss, mu[:n], mu[n:], torch.diag(s2), y)
     tol = ("lanczos" if case["fast_pred_var"] else "iter") if iterative else ((1e-5, 1e-5) if case["fast_pred_var"] else (1e-7, 1e-7))
-    cls = f"{case['model']}:{'cg' if iterative else 'chol'}{':love' if case['fast_pred_var'] else ''}"
+    cls = f"{case['model']}:{'cg' if iterative else 'chol'}{':love' if case['fast_pred_var'] else ''}" + ("" if case.get("lik", "gaussian") == "gaussian" else ":" + case["lik"])
     ctx.close("strategy_equals_dense_conditional", mean, ref_m, tol, cls=cls + ":mean", model=case["model"], quantity="mean")
     ctx.close("strategy_equals_dense_conditional", cov, ref_c, tol, cls=cls + ":cov", model=case["model"], quantity="cov")
 
